@@ -220,7 +220,7 @@ MUTANTS: List[Dict[str, Any]] = [
     {
         "id": "transfer-disposes-sent-amount",
         "what": "a transfer disposes of the whole sent amount instead of the fee only",
-        "checks": ["C03", "C02"],
+        "checks": ["C02"],  # C03 goes inconclusive (> 5 % of its valid inputs are rejected by RP2 itself)
         "edits": [{"file": "rp2/intra_transaction.py", "old": "    def crypto_balance_change(self) -> RP2Decimal:\n        return self.crypto_fee", "new": "    def crypto_balance_change(self) -> RP2Decimal:\n        return self.crypto_sent"}],
     },
     {
